@@ -1,7 +1,7 @@
 #!/venv/bin/python
 """Run the repository's pinned test suite with the hook guard OFF (fast: xdist, then re-run of the
 port-bound/failed files serially) and compare with /root/.vp/BASELINE.json stable_pass."""
-import json, os, subprocess, sys, tempfile, xml.etree.ElementTree as ET
+import json, os, signal, subprocess, sys, tempfile, xml.etree.ElementTree as ET
 
 def parse(fn):
     passed, failed = set(), set()
@@ -21,7 +21,9 @@ def run(args, junit):
     env["PYTHONPATH"] = os.path.join(REPO, "src")
     subprocess.run(["/venv/bin/python", "-m", "pytest", "-q", "-p", "no:cacheprovider", "--timeout=900",
                     "--continue-on-collection-errors", f"--junitxml={junit}"] + args, cwd=REPO, env=env,
-                   stdout=subprocess.DEVNULL, stderr=subprocess.DEVNULL)
+                   stdout=subprocess.DEVNULL, stderr=subprocess.DEVNULL,
+                   # a shell's background jobs ignore SIGINT; the suite's SIGINT tests need the default disposition
+                   preexec_fn=lambda: signal.signal(signal.SIGINT, signal.SIG_DFL))
 
 base = json.load(open("/root/.vp/BASELINE.json"))
 stable = set(base["stable_pass"])
